@@ -42,7 +42,7 @@ package builder
 //@   ensures [C10] agreement: (result == nil) <==> (!blank(ruleString) && !LexErrs(ruleString) && !SynErrs(ruleString) && !SemErrs(ruleString))
 //@   ensures [C10] allornothing: result != nil ==> builder.Kc == OLD && builder.Kc.RuleEntities == RE0 && builder.Kc.SortRulesIndexMap == IM0 && arr(builder.Kc.SortRules) == SA0 && len(builder.Kc.SortRules) == SL0
 //@   ensures [C08,C04,C16,C05,C14,C12,C13,C07] merged: result == nil ==> builder.Kc == OLD && wfKc(builder.Kc)
-//@   ensures [C08] view: result == nil ==> (forall k: string :: (k in builder.Kc.RuleEntities) <==> ((k in RE0) || (k in kc.RuleEntities))) && (forall k: string :: (k in kc.RuleEntities) ==> builder.Kc.RuleEntities[k] == kc.RuleEntities[k]) && (forall k: string :: (k in RE0) && !(k in kc.RuleEntities) ==> builder.Kc.RuleEntities[k] == RE0[k])
+//@   ensures [C08,C16] view: result == nil ==> (forall k: string :: (k in builder.Kc.RuleEntities) <==> ((k in RE0) || (k in kc.RuleEntities))) && (forall k: string :: (k in kc.RuleEntities) ==> builder.Kc.RuleEntities[k] == kc.RuleEntities[k]) && (forall k: string :: (k in RE0) && !(k in kc.RuleEntities) ==> builder.Kc.RuleEntities[k] == RE0[k])
 //@   modifies builder.Kc.RuleEntities, builder.Kc.SortRules, builder.Kc.SortRulesIndexMap
 //@   loop 0 invariant a1: newRuleEntities != nil && fresh(newRuleEntities) && builder.Kc == OLD && held(builder.buildLock) && wfParsed(kc) && fresh(kc) && len(kc.RuleEntities) > 0 && true
 //@   loop 0 invariant a2: (forall k: string :: (k in newRuleEntities) ==> (k in visited) && (k in RE0) && newRuleEntities[k] == RE0[k]) && (forall k: string :: (k in visited) ==> (k in newRuleEntities))
@@ -82,10 +82,10 @@ package builder
 //@   props C08 C04 C16 C05 C14 C12 C13 C07
 //@   requires builder != nil && !held(builder.buildLock) && wfKc(builder.Kc)
 //@   ghost RE0 = builder.Kc.RuleEntities
-//@   ensures [C08] emptylist: len(ruleNames) == 0 ==> result != nil && builder.Kc == old(builder.Kc)
+//@   ensures [C08,C16] emptylist: len(ruleNames) == 0 ==> result != nil && builder.Kc == old(builder.Kc)
 //@   ensures [C08,C04,C16,C05,C14,C12,C13,C07] installed: len(ruleNames) > 0 ==> result == nil && fresh(builder.Kc) && wfKc(builder.Kc)
-//@   ensures [C08] kept: len(ruleNames) > 0 ==> forall k: string :: (k in builder.Kc.RuleEntities) ==> (k in RE0) && builder.Kc.RuleEntities[k] == RE0[k] && (forall qi :: lo(ruleNames) <= qi && qi < hi(ruleNames) ==> at(ruleNames, qi) != k)
-//@   ensures [C08] removedonlynamed: len(ruleNames) > 0 ==> forall k: string :: (k in RE0) && !(k in builder.Kc.RuleEntities) ==> exists qi :: lo(ruleNames) <= qi && qi < hi(ruleNames) && at(ruleNames, qi) == k
+//@   ensures [C08,C16] kept: len(ruleNames) > 0 ==> forall k: string :: (k in builder.Kc.RuleEntities) ==> (k in RE0) && builder.Kc.RuleEntities[k] == RE0[k] && (forall qi :: lo(ruleNames) <= qi && qi < hi(ruleNames) ==> at(ruleNames, qi) != k)
+//@   ensures [C08,C16] removedonlynamed: len(ruleNames) > 0 ==> forall k: string :: (k in RE0) && !(k in builder.Kc.RuleEntities) ==> exists qi :: lo(ruleNames) <= qi && qi < hi(ruleNames) && at(ruleNames, qi) == k
 //@   modifies builder.Kc
 //@   nopanic
 //@   loop 0 invariant shape: held(builder.buildLock) && builder.Kc == old(builder.Kc) && newRuleEntities != nil && fresh(newRuleEntities) && len(ruleNames) > 0
@@ -105,7 +105,7 @@ package builder
 //@ func (*RuleBuilder).IsExist
 //@   props C08 C16
 //@   requires builder != nil && !held(builder.buildLock) && builder.Kc != nil
-//@   ensures [C08] agrees: len(result) == len(ruleNames) && (forall qi :: 0 <= qi && qi < len(ruleNames) ==> result[qi] == (ruleNames[qi] in builder.Kc.RuleEntities))
+//@   ensures [C08,C16] agrees: len(result) == len(ruleNames) && (forall qi :: 0 <= qi && qi < len(ruleNames) ==> result[qi] == (ruleNames[qi] in builder.Kc.RuleEntities))
 //@   modifies nothing
 //@   loop 0 invariant sofar: held(builder.buildLock) && len(exist) == rangeindex + 1 && -1 <= rangeindex && rangeindex < len(ruleNames) && (isnil(exist) || fresh(arr(exist))) && lo(exist) == 0
 //@   loop 0 invariant agree: forall qi :: 0 <= qi && qi <= rangeindex ==> exist[qi] == (ruleNames[qi] in builder.Kc.RuleEntities)
